@@ -23,6 +23,7 @@ OBLIGATIONS = [
     (P + "device_conservation_running", "at every moment (non-raw): passed to connection::write ++ buffered = written into the device"),
     (P + "raw_header_block_stripped", "raw modes: of a stream starting with a CGI header block the device passes on exactly what follows it; the lines reach set_response_headers via add_header in order"),
     (P + "cache_copy_identical", "copy_buf: bytes passed to the next buffer = copied_data() = bytes written, for every op sequence + close"),
+    (P + "cache_copy_repeatable", "copied_data() asked a second time (store_page under a second key) returns the same page"),
     (P + "gzip_bookkeeping", "gzip_buf, any deflater/buffer size: deflater inputs in order = app bytes, Z_FINISH exactly once and last, bytes passed on = deflater outputs; inflate hypothesis => body decompresses to app bytes"),
     # 4. framing of a whole response
     (P + "framing_roundtrip_http", "HTTP: from the state set_response_headers prepared, every call sequence of a finalized response: no violation, RFC 7230 client reads exactly one head and body = concat inputs (Content-Length / chunked / until-close)"),
@@ -57,6 +58,7 @@ CONFIGS_THOROUGH = CONFIGS_QUICK + [(1000, 0, 0), (-1, 1, 64)]
 PROTOS = ["scgi", "fcgi", "http10", "http11", "http10ka", "http11ka"]
 MODES = ["normal", "nogzip", "raw", "async", "asyncraw"]
 TOKEN = "abcdefghijklmnopqrstuvwxyzABCDEFGHIJKLMNOPQRSTUVWXYZ0123456789-_"
+HDR_POOL = ["X-Dup", "x-dup", "X-DUP", "X-dUp", "Cache-Control", "cache-control", "CACHE-CONTROL", "X-Other", "x-other", "X-Dupe", "X-Du"]
 
 
 def gen_payload(seed, n):
@@ -94,13 +96,21 @@ def gen_case(rng, cfg, big_ok, idx):
     # header/cookie ops first (ignored by the real code in raw modes: headers come from the body)
     names = set()
     if not raw:
-        for _ in range(rng.choice((0, 0, 1, 2, 4))):
+        # names from a small pool in varying case: the container must treat them as one name (last set wins,
+        # an empty value erases, added headers with the same name all stay)
+        pool = rng.random() < 0.4
+        for _ in range(rng.choice((0, 0, 1, 2, 4, 7) if pool else (0, 0, 1, 2, 4))):
             r = rng.random()
             if r < 0.4:
-                n = "X-" + rand_token(rng)
-                script.append("h%s:%s" % (n, rand_token(rng, 1, 12).encode().hex()))
+                n = rng.choice(HDR_POOL) if pool else "X-" + rand_token(rng)
+                v = "" if (pool and rng.random() < 0.2) else rand_token(rng, 1, 12).encode().hex()
+                script.append("h%s:%s" % (n, v))
             elif r < 0.65:
-                script.append("aX-%s:%s" % (rand_token(rng), rand_token(rng, 1, 12).encode().hex()))
+                if pool and rng.random() < 0.15:
+                    script.append("aStatus:%s" % rng.choice((b"404 Not Found", b"201 Created")).hex())
+                else:
+                    n = rng.choice(HDR_POOL) if (pool and rng.random() < 0.5) else "X-" + rand_token(rng)
+                    script.append("a%s:%s" % (n, rand_token(rng, 1, 12).encode().hex()))
             elif r < 0.85:
                 script.append("k%s:%s" % (rand_token(rng), rand_token(rng, 1, 10).encode().hex()))
             elif r < 0.95:
@@ -165,6 +175,8 @@ def gen_case(rng, cfg, big_ok, idx):
     script += body_ops
     if use_cache and rng.random() < 0.85:
         script.append("T" + key)
+        if rng.random() < 0.15:                   # the same page under a second key: the second copy must be the page, too
+            script.append("Tk%d" % (40 + rng.randrange(40)))
         if is_async and rng.random() < 0.5:       # async_flush_output after store_page (which finalizes) must not announce eof again
             script += ["f"] * rng.randrange(1, 3)
     elif rng.random() < 0.12:
@@ -300,9 +312,11 @@ def run_config(c, cfg, cases, hbin, model, stream):
             st = pages.get((keyop[0][1:], zk))
             if st is None or st != im.body:
                 bad.append((k, "page served from the cache differs from the stored page"))
-        for o in ops:
-            if o[0] == "T" and im.cache != "none":
-                pages[(o[1:], "zkey" in im.note.split(";"))] = im.cache
+        tops = [o for o in ops if o[0] == "T"]
+        for t, o in enumerate(tops):
+            if im.cache != "none":
+                # the read-back is that of the last store_page; earlier ones stored the page as sent (judged when they were last)
+                pages[(o[1:], "zkey" in im.note.split(";"))] = im.cache if t == len(tops) - 1 else im.body
     rcj, jout, jerr = c.run_lines(model, jl + dl, args)
     if rcj != 0 or len(jout) != len(jl) + len(dl):
         c.broke("judge driver", jerr or "short output")
